@@ -272,7 +272,22 @@ class CompleteStageHandler(
                     # flight drive the parent through their own completion
                     # messages; a CompleteStage arriving meanwhile is stale or
                     # redelivered and must not re-plan or finalize the stage.
-                    in_flight_children = [s for s in stage.first_after_stages() if not s.status.is_complete]
+                    #
+                    # A NOT_STARTED child is only in flight if its StartStage
+                    # was pushed: initial after-stages are started together in
+                    # one transaction (so one of them has left NOT_STARTED or
+                    # is about to), and on-failure stages are pushed together
+                    # with the _on_failure_planned flag. A pre-declared
+                    # after-stage of a stage whose own tasks failed was never
+                    # started - nothing will ever complete it, so waiting for
+                    # it would leave the stage RUNNING forever.
+                    first_after = stage.first_after_stages()
+                    after_phase_entered = bool(stage.context.get("_on_failure_planned", False)) or any(
+                        s.status != WorkflowStatus.NOT_STARTED for s in first_after
+                    )
+                    in_flight_children = (
+                        [s for s in first_after if not s.status.is_complete] if after_phase_entered else []
+                    )
                     if in_flight_children:
                         if message.message_id:
                             with self.repository.transaction(self.queue) as txn:
